@@ -463,3 +463,34 @@ def contracts():
     c = _c13.get_param_descriptor_contract()
     c.prop = "C12"
     return _c12_base_gpd() + [c]
+
+
+# ---------------------------------------------------------------------------------------------
+# concrete probe: a value given to the CONSTRUCTOR that an unchecked Selector does not know yet
+# ---------------------------------------------------------------------------------------------
+CTOR_UNCHECKED_REPLAY = '''import sys, os, logging
+sys.path.insert(0, os.environ.get('PYVC_REPO', '/repo'))
+logging.disable(logging.WARNING)
+import param
+bad = []
+for kind, mk, val in (('Selector', lambda o: param.Selector(objects=o, check_on_set=False), 5),
+                      ('ListSelector', lambda o: param.ListSelector(default=[1], objects=o, check_on_set=False), [1, 5])):
+    for decl, objs in (('list', [1, 2]), ('dict', {'one': 1, 'two': 2})):
+        A = type('A', (param.Parameterized,), {'t': mk(type(objs)(objs))})
+        B = type('B', (A,), {})
+        other = A()
+        before = list(A.param.t.objects)
+        a = A(t=val)
+        for who, p in (('the class', A.param.t), ('a subclass', B.param.t), ('another instance', other.param.t), ('a new instance', A().param.t)):
+            if list(p.objects) != before:
+                bad.append('constructor value %r admitted by an unchecked %s (%s objects): %s now reports class-level objects %r (were %r)'
+                           % (val, kind, decl, who, list(p.objects), before))
+                break
+for b in bad:
+    print(b)
+if bad:
+    print('REPRODUCED'); sys.exit(1)
+print('NOT-REPRODUCED'); sys.exit(0)
+'''
+
+PROBES = [("a constructor value unknown to an unchecked Selector stays with the instance", CTOR_UNCHECKED_REPLAY)]
